@@ -215,6 +215,7 @@ def run(program, res, tier):
 
         check_printer(res, "C12-S1", cname + ".__repr__", pr, fields, lookup2, required)
     _s2(program, res)
+    _s2b(program, res)
     _s3(program, res)
 
 
@@ -273,23 +274,63 @@ def _s2(program, res):
         raise AnalysisError("Expression.to_python: inline n-ary operand printing not found")
 
 
+def _s2b(program, res, rule="C12-S2"):
+    """PythonText(text, is_in_parens=True) may only be claimed for a text that is wrapped as a whole: "(" + ... + ")" """
+    mod = program.module("expr_rep")
+    n = 0
+    for f in program.all_functions():
+        if f.module is not mod:
+            continue
+        for c in ast.walk(f.node):
+            if isinstance(c, ast.Call) and dotted_name(c.func) == "PythonText" and c.args:
+                kws = {kw.arg: kw.value for kw in c.keywords}
+                v = kws.get("is_in_parens")
+                if not (isinstance(v, ast.Constant) and v.value is True):
+                    continue
+                n += 1
+                ops = add_operands(c.args[0])
+                first, last = ops[0], ops[-1]
+                wrapped = isinstance(first, ast.Constant) and isinstance(first.value, str) and first.value.startswith("(") \
+                    and isinstance(last, ast.Constant) and isinstance(last.value, str) and last.value.endswith(")") and len(ops) >= 3
+                if wrapped:
+                    res.ok(rule, f"{f.qualname}: is_in_parens=True is claimed for a text wrapped as a whole")
+                else:
+                    res.fail_at(rule, f, "is_in_parens-claimed-for-unwrapped-text",
+                                f"`{unparse(c)[:80]}` marks the text as parenthesised although it is not wrapped as a whole: callers that "
+                                f"trust the flag (method-call printing) omit the grouping parentheses, e.g. (-x).abs() prints as -(x).abs()", c)
+    if n == 0:
+        raise AnalysisError("expr_rep: no PythonText(..., is_in_parens=True) construction found")
+    # a literal can start with a unary minus: Value.to_python must honour want_inline_parens for negative numbers
+    vp = program.method("expr_rep", "Value", "to_python", inherited=False)
+    g = cfgmod.build(vp.node)
+    tests = [t for t in g.stmt_nodes(("test",)) if "want_inline_parens" in unparse(t.cond)]
+    ok = False
+    for t in tests:
+        c = unparse(t.cond)
+        if "< 0" in c or "<0" in c or "startswith('-')" in c or 'startswith("-")' in c:
+            wrapped = [r for r in g.returns() if any(b is t and lab is True for b, lab in g.lexical_guards(r)) and '"("' in unparse(r.stmt.value).replace("'", '"')]
+            if wrapped:
+                ok = True
+    if ok:
+        res.ok(rule, "Value.to_python groups a negative numeric literal when want_inline_parens is set")
+    else:
+        res.fail_at(rule, vp, "negative-literal-ungrouped",
+                    "Value.to_python ignores want_inline_parens: a negative literal is printed with a bare leading minus inside an operator "
+                    "expression, so (-3) ** y prints as -3 ** y and re-parses as -(3 ** y)")
+
+
 def _s3(program, res):
     vp = program.method("expr_rep", "Value", "to_python", inherited=False)
     res.analysed(vp)
-    rets = [n for n in ast.walk(vp.node) if isinstance(n, ast.Return)]
-    ok = False
-    for r in rets:
-        txt = unparse(r.value)
-        if "self.value" in txt:
-            if "self.value.__repr__()" in txt or "repr(self.value)" in txt:
-                ok = True
-            else:
-                res.fail_at("C12-S3", vp, "value-not-repr", f"Value.to_python returns `{txt}`: the literal is not printed with repr", r)
-                return
-    if ok:
+    txt = unparse(vp.node)
+    uses_repr = "self.value.__repr__()" in txt or "repr(self.value)" in txt
+    uses_str = "str(self.value)" in txt or "format(self.value" in txt or "f'{self.value}'" in txt
+    if uses_repr and not uses_str:
         res.ok("C12-S3", "Value.to_python prints the literal with repr")
+    elif uses_str:
+        res.fail_at("C12-S3", vp, "value-not-repr", "Value.to_python converts the literal with str(): strings lose their quotes, floats their precision")
     else:
-        raise AnalysisError("Value.to_python: return of self.value not found")
+        raise AnalysisError("Value.to_python: conversion of self.value not found")
     # dict keys of ops printed with repr in node printers: k.__repr__() + ": " + opi.to_python().__repr__()
     for cname in ("ExtendNode", "ProjectNode"):
         pr = program.method("view_representations", cname, "to_python_src_", inherited=False)
